@@ -112,6 +112,17 @@ fn short(o: &ApiOutcome) -> String {
     s.chars().take(160).collect()
 }
 
+/// does the sentence announce a fragment count of 0?
+fn irregular_count_zero(line: &[u8]) -> bool {
+    match lex(line) {
+        Some(lx) if lx.fields.len() == 7 => {
+            let f = lx.field(line, 1).unwrap_or(b"x");
+            !f.is_empty() && f.iter().all(|b| *b == b'0')
+        }
+        _ => false,
+    }
+}
+
 fn own_payload_len(line: &[u8]) -> Option<usize> {
     let lx = lex(line)?;
     if lx.fields.len() < 6 {
@@ -170,6 +181,17 @@ impl Prop for C18 {
         let profile = *rng.pick(&[LinkProfile::Chaos, LinkProfile::Reassembly, LinkProfile::Clean]);
         let reassembly = rng.ratio(1, 2);
         let (mut ops, nodes, mut desc) = chaos_ops(&mut rng, profile, reassembly, 2, 50);
+        // irregular numbering with a valid checksum ("1 of 0", "0 of n", k > n), placed anywhere
+        let irregular = *rng.pick(&[0usize, 0, 0, 1, 2, 4]);
+        for _ in 0..irregular {
+            let (n, k) = *rng.pick(&[(0u8, 1u8), (0, 1), (0, 2), (0, 0), (2, 0), (1, 0), (1, 2), (2, 3), (3, 255), (255, 0)]);
+            let id = *rng.pick(&[None, None, Some(0u8), Some(1), Some(5)]);
+            let at = rng.below(ops.len() + 1);
+            let node = rng.below(nodes);
+            let mut l = LineOp::plain(node, make_line(b"AIVDM", n, k, id, b"A", b"15M", 0), rng.ratio(1, 2));
+            l.faults.push(Fault::RewriteHeader);
+            ops.insert(at, Op::Line(l));
+        }
         let bigs = *rng.pick(&[0usize, 0, 1, 1, 2]);
         for _ in 0..bigs {
             big_group(&mut rng, &mut ops);
@@ -425,7 +447,11 @@ impl Prop for C18 {
                 (Outcome::ErrNmea(_) | Outcome::ErrChecksum { .. }, Outcome::Complete(..) | Outcome::Incomplete(..)) => {
                     return Some(fail(
                         "none-accepts-what-std-rejects",
-                        if desync[n] {
+                        if (dead[n] || desync[n]) && irregular_count_zero(&l.bytes) {
+                            // "k of 0": a sentence only a parser with no open group accepts
+                            // (known finding D9)
+                            "fragment-of-0-after-capacity-rejection".to_string()
+                        } else if desync[n] {
                             "desync-after-oversize-line".to_string()
                         } else {
                             format!(
